@@ -661,7 +661,14 @@ has_traits_setattro(has_traits_object *obj, PyObject *name, PyObject *value)
         }
     }
 
-    return trait->setattr(trait, trait, obj, name, value);
+    {
+        /* Hold a reference: callbacks run by setattr may remove the trait. */
+        int rc;
+        Py_INCREF(trait);
+        rc = trait->setattr(trait, trait, obj, name, value);
+        Py_DECREF(trait);
+        return rc;
+    }
 }
 
 /*-----------------------------------------------------------------------------
@@ -864,7 +871,11 @@ has_traits_getattro(has_traits_object *obj, PyObject *name)
              != NULL))
         || ((trait = (trait_object *)dict_getitem(obj->ctrait_dict, name))
             != NULL)) {
-        return trait->getattr(trait, obj, name);
+        /* Hold a reference: callbacks run by getattr may remove the trait. */
+        Py_INCREF(trait);
+        value = trait->getattr(trait, obj, name);
+        Py_DECREF(trait);
+        return value;
     }
 
     /* Try normal Python attribute access, but if it fails with an
